@@ -260,6 +260,9 @@ Qed.
 Lemma tt_scanStatus s : peek s <> 10 -> tok_tracked s (scanStatus s).
 Proof. intro H. unfold scanStatus. eapply tt_intro; try reflexivity; try apply tracks_refl; apply tracks_advance; exact H. Qed.
 
+Lemma tt_scanSingle ty v s : peek s <> 10 -> tok_tracked s (scanSingle ty v s).
+Proof. intro H. unfold scanSingle. eapply tt_intro; try reflexivity; try apply tracks_refl; apply tracks_advance; exact H. Qed.
+
 Lemma tt_scanSign s : peek s <> 10 -> tok_tracked s (scanSign s).
 Proof. intro H. unfold scanSign. eapply tt_intro; try reflexivity; try apply tracks_refl; apply tracks_advance; exact H. Qed.
 
@@ -471,11 +474,11 @@ Proof.
   assert (Hne : rest s <> []) by (rewrite E; discriminate).
   assert (TA : tracks s (advance s)) by (apply tracks_advance; exact Hp).
   destruct (ch =? 59); [apply tt_scanComment; exact Hp|].
-  destruct (ch =? 40). { destruct (looksLikeVirtualAccount s); [apply tt_makeToken_after; exact TA|apply tt_scanCode; exact Hp]. }
-  destruct (ch =? 41); [apply tt_makeToken_after; exact TA|].
-  destruct (ch =? 91); [apply tt_makeToken_after; exact TA|].
-  destruct (ch =? 93); [apply tt_makeToken_after; exact TA|].
-  destruct (ch =? 124); [apply tt_makeToken_after; exact TA|].
+  destruct (ch =? 40). { destruct (looksLikeVirtualAccount s); [apply tt_scanSingle; exact Hp|apply tt_scanCode; exact Hp]. }
+  destruct (ch =? 41); [apply tt_scanSingle; exact Hp|].
+  destruct (ch =? 91); [apply tt_scanSingle; exact Hp|].
+  destruct (ch =? 93); [apply tt_scanSingle; exact Hp|].
+  destruct (ch =? 124); [apply tt_scanSingle; exact Hp|].
   destruct (ch =? 64); [apply tt_scanAt; exact Hp|].
   destruct (ch =? 61); [apply tt_scanEquals; exact Hp|].
   destruct ((ch =? 42) || (ch =? 33)); [apply tt_scanStatus; exact Hp|].
